@@ -35,6 +35,9 @@ pub struct SimCase {
     /// 0 = no integration; otherwise both sides get an integration whose only non-zero delay is this
     /// constant trigger delay (used by the internal-timer check only: timers ignore the trigger delay)
     pub trigger_delay_us: u64,
+    /// layered simulation (C16 only): the tunnel-sent events of a first run, cloned and relabelled as
+    /// normal traffic, are the input of the run that is checked
+    pub layered: bool,
 }
 
 impl SimCase {
@@ -54,6 +57,11 @@ impl SimCase {
                 2 => s += &format!("{},{},{}\n", t, d, 100 + t % 1400),
                 3 => s += &format!("{} ,{}\n", t, d),
                 _ => s += &format!("{},{}\n", t, d),
+            }
+            // lines for padding packets ("sp" / "rp") are valid input and carry no packet of the base trace:
+            // in traces of even length every third line is followed by one
+            if self.lines.len() % 2 == 0 && (t / 7) % 3 == 0 {
+                s += &format!("{},{}\n", t, if (t / 21) % 2 == 0 { "sp" } else { "rp" });
             }
         }
         s
@@ -120,6 +128,7 @@ impl SimCase {
             "insecure_rng_seed": self.seed,
             "entry_point": if self.use_sim_fn { "sim" } else { "sim_advanced" },
             "integration_trigger_delay_us": self.trigger_delay_us,
+            "layered": self.layered,
         })
     }
 }
@@ -242,6 +251,7 @@ pub fn gen_case(r: &mut Xo, max_lines: usize, tune: &dyn Fn(&mut Xo, &mut MCfg))
         },
         use_sim_fn: false,
         trigger_delay_us: 0,
+        layered: false,
     }
 }
 
@@ -307,12 +317,28 @@ pub fn flatten(raw: &[SimEvent], base: Instant) -> Result<Vec<Ev>, String> {
     Ok(v)
 }
 
+thread_local! {
+    /// the queue the previous simulation on this thread left behind
+    static WORK_QUEUE: std::cell::RefCell<Option<maybenot_simulator::queue::SimQueue>> = const { std::cell::RefCell::new(None) };
+}
+
 pub fn run_sim(c: &SimCase) -> SimOutcome {
     let trace = c.trace_string();
     let network = c.network();
     let args = c.args();
     let r = catch_unwind(AssertUnwindSafe(|| {
-        let mut sq = parse_trace(&trace, network);
+        let parsed = parse_trace(&trace, network);
+        // half of the runs (decided by the trace) refill the queue a previous simulation on this thread
+        // has used up, with clone_from, instead of simulating on the freshly parsed one
+        let mut sq = if c.lines.len() % 2 == 0 {
+            WORK_QUEUE.with(|w| {
+                let mut q = w.borrow_mut().take().unwrap_or_else(|| parsed.clone());
+                q.clone_from(&parsed);
+                q
+            })
+        } else {
+            parsed
+        };
         let base = sq.get_first_time().expect("non-empty trace");
         let _ = take_fire_log();
         let _ = take_action_log();
@@ -321,8 +347,26 @@ pub fn run_sim(c: &SimCase) -> SimOutcome {
         } else {
             sim_advanced(&c.client, &c.server, &mut sq, &args)
         };
-        let fires = take_fire_log();
-        let log = take_action_log();
+        let mut fires = take_fire_log();
+        let mut log = take_action_log();
+        WORK_QUEUE.with(|w| *w.borrow_mut() = Some(sq));
+        let (mut base, mut raw) = (base, raw);
+        if c.layered {
+            // events of the first layer's output reused as input: only their public fields are set anew
+            let mut sq2 = maybenot_simulator::queue::SimQueue::new();
+            for e in raw.iter().filter(|e| matches!(e.event, maybenot::event::TriggerEvent::TunnelSent)) {
+                let mut x = e.clone();
+                x.event = maybenot::event::TriggerEvent::NormalSent;
+                x.contains_padding = false;
+                sq2.push_sim(x);
+            }
+            if let Some(b2) = sq2.get_first_time() {
+                base = b2;
+                raw = sim_advanced(&c.client, &c.server, &mut sq2, &args);
+                fires = take_fire_log();
+                log = take_action_log();
+            }
+        }
         (base, raw, log, fires)
     }));
     match r {
